@@ -66,6 +66,7 @@ def run(model, res, tier):
     res.rule('R6', 'a lexeme that is a proper prefix of another is tried later')
     res.rule('R7', 'checked-in parse table equals the table generated from the source')
     res.rule('R8', 'thorough: LR driver trees equal precedence-climbing trees')
+    res.rule('R9', 'the parse consumes a private token stream: the tree is built from all tokens of the formula even when a callback evaluates another formula (shared with C03.R1)')
     res.assumptions += ['A3 ply 3.11: function tokens are tried in definition order; yacc resolves S/R conflicts by the precedence table']
     res.trusted += ['ply.yacc Grammar/LRGeneratedTable as table generator', 'CPython ast', 're._parser']
     _r1(model, res, g)
@@ -75,6 +76,8 @@ def run(model, res, tier):
     _r5(model, res, c, g)
     _r6(model, res, g)
     _r7(model, res, g)
+    from . import c03
+    c03._r1(model, res, c, 'R9')
     if tier == 'thorough':
         _r8(model, res, g)
 
